@@ -14,6 +14,8 @@ func TestVerifStream(t *testing.T) {
 			return verifAcs(ws)
 		case strings.HasPrefix(ws[0], "rng."):
 			return verifRng(ws)
+		case strings.HasPrefix(ws[0], "uid."):
+			return verifUid(ws)
 		}
 		return "", false
 	})
